@@ -1041,7 +1041,66 @@ func (e *Exec) rangeInit(st *State, x *ssa.Range, where string) {
 		st.Regs[x] = &Ptr{Obj: id}
 		return
 	}
-	e.unsupported(st, fmt.Sprintf("range over %T at %s", base, where))
+	if si, ok := base.(*StrIte); ok {
+		// a conditional string whose alternatives are concrete ASCII texts: position i exists iff the actual text is
+		// longer than i; its rune is the one of the actual alternative (entries with presence conditions)
+		type alt struct {
+			bs   []*Term
+			cond *Term
+		}
+		var alts []alt
+		okAll := true
+		e.strMapC(si, e.S.True, func(sv *StrV, cond *Term) Val {
+			if sv.Segs != nil {
+				okAll = false
+				return sv
+			}
+			var bs []*Term
+			if sv.Sym != nil {
+				for _, t := range sv.Sym {
+					if !t.IsConst() {
+						e.side("ascii-rune", st, e.S.Or(e.S.Not(cond), e.S.Lt(t, e.S.Int(128))), where)
+					}
+					bs = append(bs, t)
+				}
+			} else {
+				for i := 0; i < len(sv.Conc); i++ {
+					if sv.Conc[i] >= 128 {
+						okAll = false
+					}
+					bs = append(bs, e.S.Int(int64(sv.Conc[i])))
+				}
+			}
+			alts = append(alts, alt{bs, cond})
+			return sv
+		})
+		if okAll {
+			it := &rangeIter{str: true, skip: true}
+			maxLen := 0
+			for _, a := range alts {
+				if len(a.bs) > maxLen {
+					maxLen = len(a.bs)
+				}
+			}
+			for i := 0; i < maxLen; i++ {
+				var pres []*Term
+				var val *Term = e.S.Int(0)
+				for _, a := range alts {
+					if len(a.bs) > i {
+						pres = append(pres, a.cond)
+						val = e.S.Ite(a.cond, a.bs[i], val)
+					}
+				}
+				it.keys = append(it.keys, e.S.Int(int64(i)))
+				it.vals = append(it.vals, val)
+				it.pres = append(it.pres, e.S.Or(pres...))
+			}
+			id := e.newObj(st, nil, it)
+			st.Regs[x] = &Ptr{Obj: id}
+			return
+		}
+	}
+	e.unsupported(st, fmt.Sprintf("range over %T (%s) at %s", base, describeStr(base), where))
 	st.Regs[x] = &Poison{Why: "range"}
 }
 
